@@ -38,11 +38,13 @@ import (
 
 func init() { props["C13"] = runC13 }
 
+// watchdog for every wait; after the first history that hung, later histories give up sooner
+var c13Watch = 30 * time.Second
+
 const (
 	c13AckMs   = 140000
 	c13MaxRt   = 2
 	c13NStart  = 16
-	c13Watch   = 30 * time.Second
 	c13BigLen  = 300
 	c13UpLen   = 200
 	c13NSizes  = 11
@@ -1290,6 +1292,7 @@ func runC13History(le int, ops []string) (string, bool, []string) {
 	hang := 0
 	if p.hung {
 		hang = 1
+		c13Watch = 3 * time.Second
 	}
 	return fmt.Sprintf("Hist %d %d %d [%s]", le, hang, len(bad), strings.Join(p.steps, ";\n    ")), !p.hung && len(bad) == 0, bad
 }
